@@ -10,6 +10,44 @@ use std::time::Instant;
 
 use serde_json::{json, Map, Value};
 
+static REPLAY: std::sync::Mutex<Option<(String, Value)>> = std::sync::Mutex::new(None);
+
+/// `--replay <file>`: the parsed counterexample the run_* functions look for instead of exploring.
+pub fn set_replay(path: &str, v: Value) {
+    *REPLAY.lock().unwrap() = Some((path.to_string(), v));
+}
+
+pub fn replay_request(explorer: &str) -> Option<Value> {
+    let g = REPLAY.lock().unwrap();
+    match g.as_ref() {
+        Some((_, v)) if v["artefact"]["explorer"].as_str() == Some(explorer) => Some(v.clone()),
+        _ => None,
+    }
+}
+
+pub fn replay_active() -> bool {
+    REPLAY.lock().unwrap().is_some()
+}
+
+/// Report the outcome of a replay and exit: 1 if a violation reproduced, 0 otherwise.
+pub fn replay_done(result: Option<(String, String)>) -> ! {
+    let (path, v) = REPLAY.lock().unwrap().clone().unwrap();
+    let prop = v["property"].as_str().unwrap_or("?").to_string();
+    let expected = v["clause"].as_str().unwrap_or("").to_string();
+    match result {
+        Some((clause, detail)) => {
+            println!("VIOLATION property={} replay={}", prop, path);
+            println!("  clause={} (recorded: {})", clause, expected);
+            println!("  {}", detail.chars().take(600).collect::<String>());
+            std::process::exit(1);
+        }
+        None => {
+            println!("NOT-REPRODUCED property={} replay={} (recorded clause {}): the replayed execution satisfies the oracle on this tree", prop, path, expected);
+            std::process::exit(0);
+        }
+    }
+}
+
 pub fn verif_root() -> PathBuf {
     PathBuf::from(std::env::var("VERIF_ROOT").unwrap_or_else(|_| "/verif".to_string()))
 }
@@ -155,6 +193,10 @@ impl Report {
 
     /// Write evidence + replay files, print the verdict lines, exit.
     pub fn finish(mut self) -> ! {
+        if replay_active() {
+            println!("MACHINERY-ERROR: the replay target was not found among the checks of {}", self.property);
+            std::process::exit(2);
+        }
         let known = self.load_known();
         let root = verif_root();
         let _ = std::fs::create_dir_all(root.join("evidence"));
